@@ -1,34 +1,60 @@
-"""Contracts for dashlive/mpeg/dash/representation.py + reference.py (C02, C01, C06, C09).
+"""Contracts for dashlive/mpeg/dash/representation.py, reference.py and the live/VOD media index of
+media_requests.py (C01, C02, C06, C09, C12, C16).
 
-Vocabulary (DESIGN.md section 3): a Representation with n media segments, durations
-d(1..n), prefix sums S, timescale ts, nominal segment duration sd, start number sn,
-first decode time t0; timing reference (Rref ticks @ tsref); R = Rref*ts // tsref.
+Vocabulary (DESIGN.md section 3): a Representation with n media segments, durations d(1..n), prefix
+sums S, timescale ts, nominal segment duration sd, start number sn, first decode time t0; timing
+reference (Rref ticks @ tsref); R = Rref*ts // tsref.  Live clock: E elapsed us, F first-available us,
+W leeway us, B timeShiftBufferDepth s.
 """
 import z3
 from pyvc.vals import *          # noqa: F401,F403
 from pyvc.contract import Contract, Loop, Lemma, Group
+from contracts import dt as DT_GROUP
 
 REP = 'dashlive/mpeg/dash/representation.py'
 REF = 'dashlive/mpeg/dash/reference.py'
+MRQ = 'dashlive/server/requesthandler/media_requests.py'
+MILLION = 1000000
+
+# get_segment_index's postcondition, as (label, template over tc / m / start / origin); shared verbatim by
+# its callers' contracts so that the property lemmas are stated once.
+GSI_CLAUSES = [
+    ('range', '1 <= {m} and {m} <= n'),
+    ('origin', '{origin} == Lof({tc}) * R'),                      # a whole number of reference loops
+    ('start', '{start} == {origin} + S({m} - 1)'),
+    ('loops', '{origin} - R <= {tc} and {tc} < {origin} + R'),    # the loop containing tc, or the one after it
+    ('reached', '{start} + d({m}) // 2 >= {tc}'),
+    ('wrapped_first', '{m} == 1 if {origin} > {tc} else True'),
+    ('first_such', 'forall(lambda j: {origin} + S(j - 1) + d(j) // 2 < {tc}, 1, {m})'),
+    ('first_such_prev_loop',
+     'forall(lambda j: {origin} - R + S(j - 1) + d(j) // 2 < {tc}, 1, n + 1) if {origin} > {tc} else True'),
+]
+
+
+def gsi(tc, m, start, origin):
+    return [(lab, t.format(tc=tc, m=m, start=start, origin=origin)) for lab, t in GSI_CLAUSES]
 
 
 def world():
-    w = {}
-    for nm in ('n', 'ts', 'sd', 'sn', 't0', 'R', 'Rref', 'tsref', 'track_id',
-               'E', 'F', 'W', 'B', 'ref_sd', 'ref_n'):
+    w = DT_GROUP.world()
+    for nm in ('n', 'ts', 'sd', 'sn', 't0', 'R', 'Rref', 'tsref', 'track_id', 'E', 'F', 'W', 'B', 'ref_sd', 'ref_n'):
         w[nm] = z3.Int(nm)
     w['d'] = z3.Function('d', INT, INT)
     w['S'] = z3.Function('S', INT, INT)
     w['pos'] = z3.Function('pos', INT, INT)
     w['size'] = z3.Function('size', INT, INT)
+    w['Lof'] = z3.Function('Lof', INT, INT)      # loop index get_segment_index ends in (skolem function of its ghost L)
     i = z3.Int('i!ax')
     n, d, S = w['n'], w['d'], w['S']
-    # prefix sums: S(0)=0, S(i)=S(i-1)+d(i); every media segment has a positive duration
     w['rep_valid'] = z3.And(
         n >= 2, w['ts'] >= 1, w['sd'] >= 1, S(0) == 0,
         z3.ForAll([i], z3.Implies(z3.And(1 <= i, i <= n), z3.And(S(i) == S(i - 1) + d(i), d(i) >= 1))))
     w['M'] = S(n)
+    w['live_clock'] = z3.And(w['E'] >= 0, w['B'] >= 0, w['F'] == w['E'] - MILLION * w['B'], w['F'] >= 0, w['W'] >= 0)
     w['__bases__'] = {}
+    w['__ctors__'] = {
+        'SegmentNumberAndTime': lambda eng, a, kw: tuple(a),
+    }
     return w
 
 
@@ -55,23 +81,25 @@ def rep_obj(w, mode='live'):
         'id': Opaque('id'), '_timing': timing_obj(w, mode)})
 
 
-# ----------------------------------------------------------------------------- contracts
-def gsi_result(eng, frame):
-    frame['L'] = fresh('L')
-    return (fresh('mod_segment'), fresh('seg_start_tc'), fresh('origin_time'))
+def witness(extra=()):
+    def mk(w):
+        def wt(ev):
+            n = ev(w['n'])
+            out = {k: ev(w[k]) for k in ('n', 'ts', 'sd', 'sn', 't0', 'R', 'Rref', 'tsref', 'E', 'F', 'W', 'B')}
+            for k in extra:
+                out[k] = ev(z3.Int(k))
+            if isinstance(n, int) and 0 <= n <= 64:
+                out['d'] = [ev(w['d'](z3.IntVal(i))) for i in range(1, n + 1)]
+                out['pos'] = [ev(w['pos'](z3.IntVal(i))) for i in range(0, n + 1)]
+                out['size'] = [ev(w['size'](z3.IntVal(i))) for i in range(0, n + 1)]
+            return out
+        return wt
+    return mk
 
 
-def gsi_witness(w):
-    def wt(ev):
-        n = ev(w['n'])
-        out = {k: ev(w[k]) for k in ('n', 'ts', 'sd', 'sn', 't0', 'R', 'Rref', 'tsref')}
-        out['timecode'] = ev(z3.Int('timecode'))
-        if isinstance(n, int) and 0 <= n <= 64:
-            out['d'] = [ev(w['d'](z3.IntVal(i))) for i in range(1, n + 1)]
-        return out
-    return wt
+BASIC = [('rep_valid', 'rep_valid'), ('R_pos', 'R > 0'), ('ref_ts', 'tsref >= 1')]
 
-
+# ----------------------------------------------------------------------------- reference / index search
 MEDIA_DURATION_USING_TIMESCALE = Contract(
     key=f'{REF}:StreamTimingReference.media_duration_using_timescale',
     props=['C02', 'C01', 'C06'],
@@ -81,14 +109,14 @@ MEDIA_DURATION_USING_TIMESCALE = Contract(
     ensures=[('is_R', 'result == R')],
     result=lambda eng, frame: fresh('ref_duration_tc'),
     canaries=['result == R + 1'],
+    witness_terms=witness(),
 )
 
 GET_SEGMENT_INDEX = Contract(
     key=f'{REP}:Representation.get_segment_index',
     props=['C02', 'C01', 'C12'],
     env=lambda w: {'self': rep_obj(w), 'timecode': z3.Int('timecode')},
-    requires=[('rep_valid', 'rep_valid'), ('R_pos', 'R > 0'), ('tc_nonneg', 'timecode >= 0'),
-              ('ref_ts', 'tsref >= 1')],
+    requires=BASIC + [('tc_nonneg', 'timecode >= 0')],
     loops={0: Loop(
         ghost={'L': 'timecode // R'},
         ghost_update={'L': 'L + 1 if origin_time == (L + 1) * R else L'},
@@ -105,28 +133,343 @@ GET_SEGMENT_INDEX = Contract(
              'forall(lambda j: (L - 1) * R + S(j - 1) + d(j) // 2 < timecode, 1, n + 1))'),
         ],
         variant=['timecode // R + 1 - L', 'n - mod_segment'])},
-    native_ghost={'L': 'result[2] // R'},
-    result=gsi_result,
-    ensures=[
-        ('range', '1 <= result[0] and result[0] <= n'),
-        ('origin', 'result[2] == L * R'),
-        ('start', 'result[1] == result[2] + S(result[0] - 1)'),
-        ('loops', 'timecode // R <= L and L <= timecode // R + 1'),
-        ('reached', 'result[1] + d(result[0]) // 2 >= timecode'),
-        ('wrapped_first', 'result[0] == 1 if L == timecode // R + 1 else True'),
-        ('first_such', 'forall(lambda j: result[2] + S(j - 1) + d(j) // 2 < timecode, 1, result[0])'),
-        ('first_such_prev_loop',
-         'forall(lambda j: (L - 1) * R + S(j - 1) + d(j) // 2 < timecode, 1, n + 1) '
-         'if L == timecode // R + 1 else True'),
-    ],
+    exports={'Lof(timecode)': 'L'},
+    result=lambda eng, frame: (fresh('mod_segment'), fresh('seg_start_tc'), fresh('origin_time')),
+    ensures=gsi('timecode', 'result[0]', 'result[1]', 'result[2]'),
     canaries=['result[1] + d(result[0]) // 2 > timecode', 'result[0] < n'],
-    witness_terms=gsi_witness,
+    witness_terms=witness(('timecode',)),
 )
+
+CALC_SEGMENT_FROM_TIMECODE = Contract(
+    key=f'{REP}:Representation.calculate_segment_from_timecode',
+    props=['C02', 'C01'],
+    env=lambda w: {'self': rep_obj(w), 'timecode': z3.Int('timecode'), 'drift_compensate': z3.Bool('drift_compensate')},
+    requires=BASIC,
+    raises={'ValueError': 'timecode < 0'},
+    result=lambda eng, frame: (fresh('mod_segment'), fresh('origin_time'), fresh('seg_start_tc')),
+    ensures=gsi('timecode', 'result[0]', 'result[2]', 'result[1]'),
+    canaries=['result[0] < n'],
+    witness_terms=witness(('timecode',)),
+)
+
+TIMESCALE_TO_TIMEDELTA = Contract(
+    key=f'{REP}:Representation.timescale_to_timedelta',
+    props=['C01'],
+    env=lambda w: {'self': rep_obj(w), 'timecode': z3.Int('timecode')},
+    requires=[('ts_pos', 'ts >= 1')],
+    # timedelta(seconds=<real>) rounds to the nearest microsecond: |us - 10^6*tc/ts| <= 1/2
+    ensures=[('nearest_us', '2 * (micros(result) * ts - 1000000 * timecode) <= ts and '
+                            '2 * (1000000 * timecode - micros(result) * ts) <= ts')],
+    result=lambda eng, frame: TD(fresh('seg_delta_us')),
+    canaries=['micros(result) * ts == 1000000 * timecode'],
+    witness_terms=witness(('timecode',)),
+)
+
+# ----------------------------------------------------------------------------- first / last number
+FL_LIVE = Contract(
+    key=f'{REP}:Representation.calculate_first_and_last_segment_number', variant='live',
+    props=['C01', 'C16'],
+    env=lambda w: {'self': rep_obj(w, 'live')},
+    requires=[('rep_valid', 'rep_valid'), ('clock', 'live_clock')],
+    result=lambda eng, frame: (fresh('first'), fresh('last')),
+    ensures=[('last', 'result[1] == sn + ((ts * E) // 1000000) // sd'),
+             ('first', 'result[0] == zmax(sn, result[1] - 2 - (ts * B) // sd)')],
+    canaries=['result[0] == sn'],
+    witness_terms=witness(),
+)
+
+FL_VOD = Contract(
+    key=f'{REP}:Representation.calculate_first_and_last_segment_number', variant='vod',
+    props=['C06'],
+    env=lambda w: {'self': rep_obj(w, 'vod')},
+    requires=[('rep_valid', 'rep_valid')],
+    result=lambda eng, frame: (fresh('first'), fresh('last')),
+    ensures=[('exact', 'result[0] == sn and result[1] == sn + n - 1')],
+    canaries=['result[1] == sn'],
+    witness_terms=witness(),
+)
+
+# ----------------------------------------------------------------------------- number / time -> segment
+# availability test of the live branch, with the half-microsecond rounding of timedelta(seconds=float):
+#   x = 10^6*tc/ts (exact).  raise if x < F-W-1/2 or x > E+1/2; return if F-W+1/2 <= x <= E-1/2
+def avail(tc):
+    must = (f'2 * 1000000 * ({tc}) < (2 * (F - W) - 1) * ts or 2 * 1000000 * ({tc}) > (2 * E + 1) * ts or ({tc}) < 0')
+    may = (f'2 * 1000000 * ({tc}) < (2 * (F - W) + 1) * ts or 2 * 1000000 * ({tc}) > (2 * E - 1) * ts or ({tc}) < 0')
+    return must, may
+
+
+def snt_live(kind):
+    tc = '(segment_num - sn) * sd' if kind == 'number' else 'segment_time'
+    num = 'segment_num' if kind == 'number' else 'segment_time // sd'
+    env = (lambda w: {'self': rep_obj(w, 'live'), 'segment_time': None, 'segment_num': z3.Int('segment_num')}) \
+        if kind == 'number' else \
+        (lambda w: {'self': rep_obj(w, 'live'), 'segment_time': z3.Int('segment_time'), 'segment_num': None})
+    return Contract(
+        key=f'{REP}:Representation.calculate_segment_number_and_time', variant=f'live-{kind}',
+        props=['C01', 'C02'],
+        env=env,
+        requires=BASIC + [('clock', 'live_clock')],
+        raises_bounds={'ValueError': avail(tc)},
+        result=lambda eng, frame: (fresh('segment_num'), fresh('mod_segment'), fresh('origin_time')),
+        ensures=[('num', f'result[0] == {num}')] +
+                [(lab, t) for lab, t in gsi(tc, 'result[1]', f'(result[2] + S(result[1] - 1))', 'result[2]') if lab != 'start'],
+        canaries=['result[1] < n'],
+        witness_terms=witness(('segment_num', 'segment_time')),
+    )
+
+
+def _mode(frame):
+    return frame['self'].f['_timing'].f['mode']
+
+
+FL_LIVE.applies = lambda fr: _mode(fr) == 'live'
+FL_VOD.applies = lambda fr: _mode(fr) != 'live'
+SNT_LIVE_NUMBER = snt_live('number')
+SNT_LIVE_TIME = snt_live('time')
+
+SNT_VOD_NUMBER = Contract(
+    key=f'{REP}:Representation.calculate_segment_number_and_time', variant='vod-number',
+    props=['C06'],
+    env=lambda w: {'self': rep_obj(w, 'vod'), 'segment_time': None, 'segment_num': z3.Int('segment_num')},
+    requires=[('rep_valid', 'rep_valid')],
+    result=lambda eng, frame: (fresh('segment_num'), fresh('mod_segment'), fresh('origin_time')),
+    ensures=[('exact', 'result[0] == segment_num and result[1] == segment_num - sn + 1 and result[2] == 0')],
+    canaries=['result[1] == 1'],
+    witness_terms=witness(('segment_num',)),
+)
+
+SNT_VOD_TIME = Contract(
+    key=f'{REP}:Representation.calculate_segment_number_and_time', variant='vod-time',
+    props=['C06'],
+    env=lambda w: {'self': rep_obj(w, 'vod'), 'segment_time': z3.Int('segment_time'), 'segment_num': None},
+    requires=[('rep_valid', 'rep_valid')],
+    result=lambda eng, frame: (fresh('segment_num'), fresh('mod_segment'), fresh('origin_time')),
+    ensures=[('exact', 'result[1] == (segment_time + sd // 4) // sd + 1 and result[0] == result[1] - 1 + sn '
+                       'and result[2] == 0')],
+    canaries=['result[1] == 1'],
+    witness_terms=witness(('segment_time',)),
+)
+
+
+SNT_LIVE_NUMBER.applies = lambda fr: _mode(fr) == 'live' and fr['segment_time'] is None
+SNT_LIVE_TIME.applies = lambda fr: _mode(fr) == 'live' and fr['segment_num'] is None
+SNT_VOD_NUMBER.applies = lambda fr: _mode(fr) != 'live' and fr['segment_time'] is None
+SNT_VOD_TIME.applies = lambda fr: _mode(fr) != 'live' and fr['segment_num'] is None
+
+
+# ----------------------------------------------------------------------------- media index of the live/vod handler
+def msi(mode, kind):
+    tc = '(seg_num - sn) * sd' if kind == 'number' else 'seg_time'
+    num = 'seg_num' if kind == 'number' else ('seg_time // sd' if mode == 'live' else '(seg_time + sd // 4) // sd + sn')
+
+    def env(w):
+        rep = rep_obj(w, mode)
+        return {'self': Obj('LiveMedia', {}), 'mode': mode, 'representation': rep, 'timing': rep.f['_timing'],
+                'seg_num': z3.Int('seg_num') if kind == 'number' else None,
+                'seg_time': z3.Int('seg_time') if kind == 'time' else None}
+    if mode == 'live':
+        first = 'zmax(sn, sn + ((ts * E) // 1000000) // sd - 2 - (ts * B) // sd)'
+        last = 'sn + ((ts * E) // 1000000) // sd'
+        must, may = avail(tc)
+        outside = f'(({num}) < {first} or ({num}) > {last})'
+        c = Contract(
+            key=f'{MRQ}:LiveMedia.calculate_media_segment_index', variant=f'{mode}-{kind}',
+            props=['C01', 'C16'], env=env,
+            requires=BASIC + [('clock', 'live_clock')],
+            raises_bounds={'ValueError': (f'({must}) or {outside}', f'({may}) or {outside}')},
+            ensures=[('num', f'result[2] == {num}'), ('in_range', f'{first} <= result[2] and result[2] <= {last}')] +
+                    [(lab, t) for lab, t in gsi(tc, 'result[0]', '(result[1] + S(result[0] - 1))', 'result[1]') if lab != 'start'],
+            canaries=['result[0] < n'],
+            witness_terms=witness(('seg_num', 'seg_time')),
+        )
+    else:
+        outside = f'(({num}) < sn or ({num}) > sn + n - 1)'
+        c = Contract(
+            key=f'{MRQ}:LiveMedia.calculate_media_segment_index', variant=f'{mode}-{kind}',
+            props=['C06', 'C16'], env=env,
+            requires=[('rep_valid', 'rep_valid')],
+            raises={'ValueError': outside},
+            ensures=[('exact', f'result[2] == {num} and result[0] == result[2] - sn + 1 and result[1] == 0'),
+                     ('stored_segment', '1 <= result[0] and result[0] <= n')],
+            canaries=['result[0] == 1'],
+            witness_terms=witness(('seg_num', 'seg_time')),
+        )
+    return c
+
+
+MSI = [msi('live', 'number'), msi('live', 'time'), msi('vod', 'number'), msi('vod', 'time')]
+
+
+# ----------------------------------------------------------------------------- SegmentList (on-demand byte ranges)
+def ctor_segment_position(eng, args, kw):
+    vals = dict(zip(('start', 'end'), args))
+    vals.update(kw)
+    return Obj('SegmentPosition', {'start': vals['start'], 'end': vals['end']})
+
+
+def ctor_segment_index_list(eng, args, kw):
+    return Obj('SegmentIndexList', {'timescale': kw['timescale'], 'duration': kw['duration'], 'init': kw['init'],
+                                    'media': ArrList('media', {'start': INT, 'end': INT}, length=z3.IntVal(0),
+                                                     elem_cls='SegmentPosition')})
+
+
+GENERATE_SEGMENT_LIST = Contract(
+    key=f'{REP}:Representation.generateSegmentList',
+    props=['C06'],
+    env=lambda w: {'self': rep_obj(w, 'vod')},
+    requires=[('rep_valid', 'rep_valid')],
+    ctors={'SegmentPosition': ctor_segment_position, 'SegmentIndexList': ctor_segment_index_list},
+    loops={0: Loop(
+        invariant=[('it', '0 <= _it0 and _it0 <= n + 1'),
+                   ('first', 'first == (_it0 == 0)'),
+                   ('init', 'True if _it0 == 0 else (rv.init.start == pos(0) and rv.init.end == pos(0) + size(0) - 1)'),
+                   ('count', 'length(rv.media) == (0 if _it0 == 0 else _it0 - 1)'),
+                   ('media', 'forall(lambda k: rv.media[k].start == pos(k + 1) and '
+                             'rv.media[k].end == pos(k + 1) + size(k + 1) - 1, 0, length(rv.media))')],
+        extra_modifies=['rv.media', 'rv.init'],
+        variant=['_hi0 - _it0'])},
+    ensures=[('init', 'result.init.start == pos(0) and result.init.end == pos(0) + size(0) - 1'),
+             ('count', 'length(result.media) == n'),
+             ('media', 'forall(lambda k: result.media[k].start == pos(k + 1) and '
+                       'result.media[k].end == pos(k + 1) + size(k + 1) - 1, 0, n)'),
+             ('timescale', 'result.timescale == ts and result.duration == M')],
+    canaries=['length(result.media) == 0'],
+    witness_terms=witness(),
+)
+
+
+# ----------------------------------------------------------------------------- lemmas (C02 / C01)
+def _gsi_facts(w, tc, m, start, origin):
+    """get_segment_index's postcondition (GSI_CLAUSES) as z3 facts about (m, start, origin) for timecode tc."""
+    n, R, S, d, Lof = w['n'], w['R'], w['S'], w['d'], w['Lof']
+    j = z3.Int('j!gsi')
+    two = z3.IntVal(2)
+    return [1 <= m, m <= n, origin == Lof(tc) * R, start == origin + S(m - 1), origin - R <= tc, tc < origin + R,
+            start + floordiv(d(m), two) >= tc, z3.Implies(origin > tc, m == 1),
+            z3.ForAll([j], z3.Implies(z3.And(1 <= j, j < m), origin + S(j - 1) + floordiv(d(j), two) < tc)),
+            z3.Implies(origin > tc, z3.ForAll([j], z3.Implies(z3.And(1 <= j, j <= n),
+                       origin - R + S(j - 1) + floordiv(d(j), two) < tc)))]
+
+
+def _mono(w):
+    """prefix sums are monotone on [0, n]: a consequence of d >= 1 by induction (one step is lemma prefix_step)"""
+    i, k = z3.Ints('i!mono k!mono')
+    return z3.ForAll([i, k], z3.Implies(z3.And(0 <= i, i <= k, k <= w['n']), w['S'](i) <= w['S'](k)))
+
+
+def lemma_time_exact(w):
+    """C02: a request for an exact canonical start tc = L0*R + S(m0-1) (every start inside its loop: S(n-1) < R)
+    is answered with exactly that segment: (m0, tc, L0*R).  Three chained steps."""
+    n, R, S, Lof = w['n'], w['R'], w['S'], w['Lof']
+    L0, m0, m, start, origin = z3.Ints('L0 m0 m_r start_r origin_r')
+    tc = L0 * R + S(m0 - 1)
+    L = Lof(tc)
+    pc = [w['rep_valid'], R > 0, _mono(w), S(n - 1) < R, L0 >= 0, 1 <= m0, m0 <= n] + _gsi_facts(w, tc, m, start, origin)
+    a = z3.Or(L == L0, L == L0 + 1)
+    return [('a_loop_candidates', pc, a), ('b_same_loop', pc + [a], L == L0),
+            ('c_same_segment', pc + [L == L0], z3.And(m == m0, start == tc, origin == L0 * R))]
+
+
+def lemma_prefix_monotone(w):
+    n, S = w['n'], w['S']
+    i = z3.Int('i')
+    return [w['rep_valid'], 1 <= i, i <= n], S(i - 1) < S(i)
+
+
+def lemma_mod_reference(w):
+    """C02: the source position delivered (start - origin = S(m-1)) equals the served start modulo the reference
+    duration R whenever every segment starts inside its loop (S(n-1) < R)."""
+    n, R, S, Lof = w['n'], w['R'], w['S'], w['Lof']
+    tc, m, start, origin = z3.Ints('tc m_r start_r origin_r')
+    pc = [w['rep_valid'], R > 0, _mono(w), S(n - 1) < R, tc >= 0] + _gsi_facts(w, tc, m, start, origin)
+    a = z3.And(0 <= start - origin, start - origin < R, Lof(tc) >= 0)
+    return [('a_inside_loop', pc, a),
+            ('b_modulo', pc + [a], z3.And(start - origin == S(m - 1), start - origin == pymod(start, R),
+                                         origin == floordiv(start, R) * R))]
+
+
+def lemma_number_near(w):
+    """C02: for $Number$ = num the served start lies within half a segment duration of tc = (num - sn)*sd:
+    start >= tc - d(m)//2 always; the preceding segment's midpoint lies before tc (m > 1), so
+    start < tc + d(m-1) - d(m-1)//2; if the search wrapped (m == 1, origin > tc) the start is the next loop
+    origin, i.e. tc plus at most the last segment's half duration plus the per-loop drift R - S(n)."""
+    n, R, S, d = w['n'], w['R'], w['S'], w['d']
+    tc, m, start, origin = z3.Ints('tc m_r start_r origin_r')
+    pc = [w['rep_valid'], R > 0, tc >= 0] + _gsi_facts(w, tc, m, start, origin)
+    two = z3.IntVal(2)
+    return pc, z3.And(start >= tc - floordiv(d(m), two),
+                      z3.Implies(m > 1, start < tc + d(m - 1) - floordiv(d(m - 1), two)),
+                      z3.Implies(z3.And(m == 1, origin > tc),
+                                 start < tc + d(n) - floordiv(d(n), two) + (R - S(n))))
+
+
+def lemma_cross_track_alignment(w):
+    """C02: when Rref*ts is a multiple of tsref the per-loop duration R of this track, in seconds, equals the
+    reference duration exactly (R/ts == Rref/tsref), so tracks stay aligned after any number of loops."""
+    R, Rref, ts, tsref = w['R'], w['Rref'], w['ts'], w['tsref']
+    return [ts >= 1, tsref >= 1, Rref >= 0, R == floordiv(Rref * ts, tsref), pymod(Rref * ts, tsref) == 0], R * tsref == Rref * ts
+
+
+def lemma_cross_track_drift_canary(w):
+    """...and without that divisibility it is false (known finding C02-cross-track-drift): must not be provable"""
+    R, Rref, ts, tsref = w['R'], w['Rref'], w['ts'], w['tsref']
+    return [ts >= 1, tsref >= 1, Rref >= 0, R == floordiv(Rref * ts, tsref)], R * tsref == Rref * ts
+
+
+def lemma_number_in_window_accepted(w):
+    """C01 ($Number$): every number k whose 5.3.9.5.3 availability window [(k+1)*D, (k+2)*D + B] (D = sd/ts,
+    computed from manifest values only) contains the elapsed time E is accepted by
+    LiveMedia.calculate_media_segment_index - in the region leeway W*ts >= 2*sd*10^6 + ts (known finding
+    outside it) and segment duration >= 1 us."""
+    ts, sd, sn, E, F, W, B = (w[k] for k in ('ts', 'sd', 'sn', 'E', 'F', 'W', 'B'))
+    k = z3.Int('k')
+    tc = k * sd
+    num = sn + k
+    inwin = z3.And(k >= 0, (k + 1) * sd * MILLION <= E * ts, E * ts <= (k + 2) * sd * MILLION + B * MILLION * ts)
+    last = sn + floordiv(floordiv(ts * E, z3.IntVal(MILLION)), sd)
+    first = z3.If(last - 2 - floordiv(ts * B, sd) >= sn, last - 2 - floordiv(ts * B, sd), sn)
+    may = z3.Or(2 * MILLION * tc < (2 * (F - W) + 1) * ts, 2 * MILLION * tc > (2 * E - 1) * ts, tc < 0,
+                num < first, num > last)
+    region = z3.And(W * ts >= 2 * sd * MILLION + ts, sd * MILLION >= ts)     # leeway >= 2 segments; a segment lasts >= 1 us
+    pc = [ts >= 1, sd >= 1, w['live_clock'], inwin, region]
+    return pc, z3.Not(may)      # "may raise" is false => the call returns (contract: raised => may)
+
+
+def lemma_number_in_window_needs_leeway(w):
+    """canary: without the leeway region the claim is false (known finding C01-number-leeway)"""
+    pc, goal = lemma_number_in_window_accepted(w)
+    return pc[:-1], goal
 
 
 GROUP = Group(
     name='rep',
     world=world,
-    contracts=[MEDIA_DURATION_USING_TIMESCALE, GET_SEGMENT_INDEX],
-    assumptions=[],
+    contracts=[MEDIA_DURATION_USING_TIMESCALE, GET_SEGMENT_INDEX, CALC_SEGMENT_FROM_TIMECODE, TIMESCALE_TO_TIMEDELTA,
+               FL_LIVE, FL_VOD, SNT_LIVE_NUMBER, SNT_LIVE_TIME, SNT_VOD_NUMBER, SNT_VOD_TIME] + MSI +
+              [GENERATE_SEGMENT_LIST],
+    lemmas=[
+        Lemma('time_exact', ['C02'], lemma_time_exact),
+        Lemma('prefix_step', ['C02'], lemma_prefix_monotone),
+        Lemma('mod_reference', ['C02'], lemma_mod_reference),
+        Lemma('number_near', ['C02'], lemma_number_near),
+        Lemma('cross_track_alignment', ['C02'], lemma_cross_track_alignment),
+        Lemma('cross_track_alignment_without_divisibility', ['C02'], lemma_cross_track_drift_canary, canary=True),
+        Lemma('number_in_window_accepted', ['C01'], lemma_number_in_window_accepted),
+        Lemma('number_in_window_accepted_without_leeway', ['C01'], lemma_number_in_window_needs_leeway, canary=True),
+    ],
+    assumptions=[
+        'rep_valid: n >= 2 media segments, every stored duration >= 1, timescale >= 1, nominal segment duration >= 1 '
+        '(what Representation.__init__/load establish for an indexed file)',
+        'R > 0 (reference duration in this track\'s timescale; the code asserts it)',
+        'float arithmetic in timescale_to_timedelta is exact real arithmetic, rounded to the nearest microsecond by '
+        'datetime.timedelta (gap: bounded stand-in c19_tick_grid)',
+        'lemmas time_exact / mod_reference assume monotone prefix sums, which follows from d >= 1 by induction '
+        '(single step proved as lemma prefix_step)',
+    ],
+    trusted=[],
+    not_covered=['media_requests.py:208 applies origin_time to the stored tfdt and :212 writes sequence_number: handler '
+                 'lines outside any contract; the served decode time equals the proved start only if the stored tfdt of '
+                 'segment m is t0 + S(m-1) and t0 == 0',
+                 'generateSegmentTimeline run-length list (see evidence of the timeline contract when present)'],
 )
+GROUP.callees = [DT_GROUP.TIMEDELTA_TO_TIMECODE, DT_GROUP.SCALE_TIMEDELTA, DT_GROUP.TIMECODE_TO_TIMEDELTA]
